@@ -22,7 +22,7 @@ RULE = ("mapping cases = operation sequences over keys {a, A, ab, b}: exhaustive
         "the sequence replaces an existing key and removes a key; equality cases = parsed documents, every block/field x every perturbation "
         "kind; non-trivial = document with >= 1 entry with >= 2 fields; distinct = distinct sequence / document")
 ASSUMPTIONS = ["field keys distinct and not ENTRYTYPE/ID", "perturbed objects are rebuilt through the public constructors"]
-MIN = {"model_step": (100000, 1000000), "entry_invariant": (100000, 1000000), "eq_copy": (5000, 100000), "eq_perturbation": (20000, 400000), "start_entry_with_middleware_metadata": (5000, 50000), "state_related_argument": (20000, 200000)}
+MIN = {"model_step": (100000, 1000000), "entry_invariant": (100000, 1000000), "eq_copy": (5000, 100000), "eq_perturbation": (20000, 400000), "start_entry_with_middleware_metadata": (5000, 50000), "state_related_argument": (20000, 200000), "shallow_copy_self_consistent": (20000, 200000)}
 
 KEYS = ["a", "A", "ab", "b"]      # case variants and keys that are substrings of another key
 MUT = [(op, k) for op in ("set_field", "setitem", "pop", "pop_default", "delitem") for k in KEYS]
@@ -156,6 +156,10 @@ def check_map(case, ctx):
     d = {f.key: f for f in e.fields}
     out = []
     replaced = removed = False
+    # a shallow copy of the entry taken now (or, for every other case, after the second operation): whatever the two share,
+    # EACH of them must stay one consistent mapping - fields, fields_dict, items(), get, in, [] describe the same fields (seed C19-m)
+    twin_at = (0 if ctx.cases % 2 else 2) if ctx.cases % 3 == 0 else -1
+    twin = copy.copy(e) if twin_at == 0 else None
     why = read_checks(e, d, typ, ekey)
     if why:
         return [Violation("model-mismatch", f"C19:map:init:{why[0]}", dict(case=case, why=why))]
@@ -241,6 +245,14 @@ def check_map(case, ctx):
                                                                                    fields=[f.key for f in e.fields], model=list(d.keys()))))
             break
         ctx.state("".join(d.keys()))
+        if twin is None and step + 1 == twin_at:
+            twin = copy.copy(e)
+        if twin is not None:
+            ctx.mon("shallow_copy_self_consistent")
+            why = read_checks(twin, {f.key: f for f in twin.fields}, twin.entry_type, twin.key)
+            if why:
+                out.append(Violation("model-mismatch", f"C19:map:shallow-copy-inconsistent:{why[0]}", dict(case=case, step=step, why=why, twin_fields=[f.key for f in twin.fields])))
+                break
     if sib is not None and not out:
         now = [(f.key, f.value) for f in sib.fields]
         st, again = sp.parse_default(text) if case["parsed"] & 4 else sp.parse_raw(text)
